@@ -155,6 +155,72 @@ def per_filter_attrs(prog, name, seed=None):
     return {k: v for k, v in out.items() if v is not None}, f, ev
 
 
+def gabor_truncation_support(ctx, R):
+    """The angular support GaborFilterBank.get_truncated_response cuts at: either the one the constructor stored (decided by
+    gabor_supports) or, when it is recomputed at call time, the same closed form - sqrt(2 (log C_f - log eps)) / sigma with
+    C_f the unit-gain or unit-L2-norm constant."""
+    prog = ctx.prog
+    from .. import scenario as SC
+    f = prog.own_method(bank(prog, "GaborFilterBank"), "get_truncated_response")
+    ev = SymEval(prog, f, inline_props=False).run()
+    li = [n for n in f.body_nodes() if isinstance(n, ast.Assign) and astq.is_name(n.targets[0], "left_idx")]
+    if len(li) != 1:
+        ctx.error(R, "cannot decide which angular support the Gabor truncation uses: left_idx not found")
+        return
+    angs = [x for x in ast.walk(li[0].value) if isinstance(x, ast.Name) and x.id not in ("width", "np", "int")]
+    if len(angs) != 1:
+        ctx.error(R, "cannot decide which angular support the Gabor truncation uses: %s" % astq.text(li[0].value)[:80])
+        return
+    lo = ev.eval_at(li[0], angs[0])
+    fi = S.sym(f.params[1])
+    stored = S.call("getitem", S.call("getitem", S.sym("self._supports_ang"), fi), S.ZERO)
+    if lo == stored or S.show(lo).startswith("getitem(getitem(self._supports_ang"):
+        ctx.ok(R, f.loc(li[0]), "the Gabor truncation cuts at the support stored by the constructor")
+        return
+    SG, XI, EPS = S.sym("SIGMA"), S.sym("XI"), S.sym("EPS")
+    half, two = S.lift(Fraction(1, 2)), S.lift(2)
+    lpi, l2 = S.call("log", S.PI), S.call("log", two)
+    dom = {"SIGMA": [Fraction(2), Fraction(5, 3)], "XI": [Fraction(1, 2)], "EPS": [Fraction(1, 2000), Fraction(1, 100)]}
+
+    def norm(e, l2n):
+        def fn(x):
+            if x == S.call("getitem", S.sym("self._stds"), fi):
+                return SG
+            if x == S.call("getitem", S.sym("self._centers_ang"), fi):
+                return XI
+            if x.op == "sym" and x.args[0].endswith("EFFECTIVE_SUPPORT_THRESHOLD"):
+                return EPS
+            if x.op == "sym" and x.args[0] in ("self._scale_l2_norm", "self.scaled_l2_norm"):
+                return S.lift(l2n)
+            if x.op == "cmp" and x.args[0] in ("is", "is not") and x.args[1].op == "sym" and x.args[2] == S.NONE:
+                d_ = f.defaults.get(x.args[1].args[0])
+                if isinstance(d_, ast.Constant) and d_.value is None:
+                    return S.lift(x.args[0] == "is")  # an optional argument left at its default
+            return None
+        return SC.transform(e, fn)
+    for l2n in (True, False):
+        got = S.sub(XI, norm(lo, l2n))
+        if l2n:
+            log_ct = S.sub(S.neg(S.mul(half, S.call("log", SG))), S.mul(S.lift(Fraction(1, 4)), lpi))
+        else:
+            log_ct = S.sub(S.neg(S.mul(half, S.add(l2, lpi))), S.call("log", SG))
+        log_cf = S.add(log_ct, S.add(S.call("log", SG), S.mul(half, S.add(l2, lpi))))
+        want = S.truediv(S.call("sqrt", S.mul(two, S.sub(log_cf, S.call("log", EPS)))), SG)
+        mode = "unit L2 norm" if l2n else "unit peak gain"
+        if set(S.symbols(got)) - {"SIGMA", "XI", "EPS", "pi"} or S.has_unknown(got) or SC.residual_conditions(got):
+            ctx.error(R, "cannot decide the angular support the Gabor truncation recomputes (%s): %s" % (mode, S.show(got)[:120]))
+            continue
+        r = S.compare(got, want, domain=dom, expand_logs=True)
+        if r["verdict"] == "equal":
+            ctx.ok(R, f.loc(li[0]), "Gabor truncation (%s): the recomputed half-width is sqrt(2 (log C_f - log eps)) / sigma" % mode)
+        elif r["verdict"] == "differ":
+            ctx.bad(R, f, li[0], "Gabor with %s: get_truncated_response cuts at a half-width of %s, but the response falls to the threshold at %s (e.g. at %s: "
+                    "%s vs %s): bins outside the truncated window still exceed the threshold" % (mode, S.canon(got, True)[:120], S.canon(want, True)[:120],
+                                                                                                r.get("witness"), r["values"][0], r["values"][1]), "Gabor frequency support", robust=True)
+        else:
+            ctx.error(R, "cannot decide the angular support the Gabor truncation recomputes (%s): %s" % (mode, r.get("reason", "")[:120]))
+
+
 def gabor_supports(ctx, R, which=("freq", "time")):
     """The advertised Gabor supports are where the Gaussian falls to the threshold eps:
     |H(w)| = C_f exp(-sigma^2 (w - xi)^2 / 2) = eps  <=>  |w - xi| = sqrt(2 (log C_f - log eps)) / sigma,
